@@ -1,6 +1,6 @@
 (* C17/Properties.v -- pinned statements of property C17.
    Strings are lists of UTF-8 bytes; [resolve] is the model of BaseIri::resolve (oxiri). *)
-From Sophia.C17 Require Import Model Proofs.
+From Sophia.C17 Require Import Model Proofs Rfc.
 Local Open Scope nat_scope.
 
 (* (1) whenever relativize returns a reference, resolving it against the base gives back the IRI
@@ -43,6 +43,24 @@ Check (resolve : str -> str -> option str).
 Check (resolve_defined : forall b p r,
   positions_of b = Some p -> scheme_end p < authority_end p -> hd_is (N.eqb c_colon) r = false ->
   exists o, resolve b r = Some o).
+
+(* RFC 3986 section 5.2 as the specification.  The oxiri model and the RFC agree on every reference
+   without scheme and authority when the base has an authority and a path free of dot segments *)
+Check (oxiri_agrees_with_rfc : forall b p r,
+  positions_of b = Some p -> scheme_end p < authority_end p -> has_dot_seg (ox_path b p) = false ->
+  scheme_len r = None -> hd_is (N.eqb c_colon) r = false -> starts_with [c_slash; c_slash] r = false ->
+  resolve b r = Some (resolve_rfc b r)).
+(* hence (1) also holds for the RFC resolver on that class: the _partial form of the RFC statement *)
+Check (relativize_sound_rfc_partial : forall b n i r p,
+  relativize b n i = Ret (Some r) ->
+  positions_of b = Some p -> scheme_end p < authority_end p -> has_dot_seg (ox_path b p) = false ->
+  resolve_rfc b r = i).
+(* the unrestricted RFC statement is false (dot segments in the base, rootless bases): relativize
+   inverts the resolver sophia uses, which deviates from the RFC there *)
+Check (relativize_sound_rfc_refuted_dot_base : ~ relativize_sound_rfc).
+Check (relativize_sound_rfc_refuted_rootless : ~ relativize_sound_rfc).
+Check (relativize_ref_kind : forall b n i r, relativize b n i = Ret (Some r) ->
+  scheme_len r = None /\ hd_is (N.eqb c_colon) r = false /\ starts_with [c_slash; c_slash] r = false).
 
 (* the offsets computed by Relativizer::new are those of the parsed base *)
 Check (new_inv : forall b n z, new b n = Some z ->
@@ -93,6 +111,10 @@ Example ex_last_segment :
   relativize [104; 116; 116; 112; 58; 47; 47; 97; 47; 98; 63; 113]%N 0 [104; 116; 116; 112; 58; 47; 47; 97; 47; 98]%N = Ret (Some [98]%N).
 Proof. vm_compute. reflexivity. Qed.
 
+Example ex_rfc_class : rfc_class s_base1 [46; 46; 47; 80; 49]%N = true
+  /\ resolve_rfc s_base1 [46; 46; 47; 80; 49]%N = [104; 116; 116; 112; 58; 47; 47; 97; 47; 98; 47; 80; 49]%N.
+Proof. split; vm_compute; reflexivity. Qed.
+
 Print Assumptions relativize_sound.
 Print Assumptions relativize_same_path_noquery.
 Print Assumptions relativize_no_panic.
@@ -100,6 +122,11 @@ Print Assumptions relativize_same_path_query_some.
 Print Assumptions relativize_same_document.
 Print Assumptions relativize_same_path_query.
 Print Assumptions resolve_defined.
+Print Assumptions oxiri_agrees_with_rfc.
+Print Assumptions relativize_sound_rfc_partial.
+Print Assumptions relativize_sound_rfc_refuted_dot_base.
+Print Assumptions relativize_sound_rfc_refuted_rootless.
+Print Assumptions relativize_ref_kind.
 Print Assumptions new_inv.
 Print Assumptions relativize_prefix_refuted_colon.
 Print Assumptions relativize_prefix_refuted_empty_segment.
